@@ -6,7 +6,15 @@ import (
 	"sort"
 	"strings"
 
+	sdkmath "cosmossdk.io/math"
+	basketkeeper "github.com/KiraCore/sekai/x/basket/keeper"
+	baskettypes "github.com/KiraCore/sekai/x/basket/types"
 	govkeeper "github.com/KiraCore/sekai/x/gov/keeper"
+	stakingkeeper "github.com/KiraCore/sekai/x/staking/keeper"
+	stakingtypes "github.com/KiraCore/sekai/x/staking/types"
+	tokenskeeper "github.com/KiraCore/sekai/x/tokens/keeper"
+	tokenstypes "github.com/KiraCore/sekai/x/tokens/types"
+	sdked25519 "github.com/cosmos/cosmos-sdk/crypto/keys/ed25519"
 	govtypes "github.com/KiraCore/sekai/x/gov/types"
 	sdk "github.com/cosmos/cosmos-sdk/types"
 )
@@ -640,7 +648,37 @@ func runC07(r *Rec) {
 		perm govtypes.PermValue
 		call func(cc sdk.Context, who sdk.AccAddress) error
 	}
+	// the gated messages of the other modules (they ask the gov KEEPER's CheckIfAllowedPermission, another entry point
+	// than the gov module's own package-level function)
+	tms := tokenskeeper.NewMsgServerImpl(w.app.TokensKeeper, k)
+	bms := basketkeeper.NewMsgServerImpl(w.app.BasketKeeper, k)
+	sms := stakingkeeper.NewMsgServerImpl(w.app.CustomStakingKeeper, k)
+	var gateBasket uint64
+	if err := w.app.BasketKeeper.CreateBasket(base, baskettypes.Basket{Suffix: "gate", Amount: sdk.ZeroInt(), SwapFee: sdk.ZeroDec(), SlipppageFeeMin: sdk.ZeroDec(), TokensCap: sdk.OneDec(),
+		LimitsPeriod: 60, MintsMin: sdk.OneInt(), MintsMax: sdk.NewInt(1000), BurnsMin: sdk.OneInt(), BurnsMax: sdk.NewInt(1000), SwapsMin: sdk.OneInt(), SwapsMax: sdk.NewInt(1000),
+		Tokens: []baskettypes.BasketToken{{Denom: "ukex", Weight: sdk.OneDec(), Amount: sdk.ZeroInt(), Deposits: true, Withdraws: true, Swaps: true}}}); err == nil {
+		gateBasket = w.app.BasketKeeper.GetLastBasketId(base)
+	}
 	gates := []gate{
+		{"tokens.UpsertTokenInfo", govtypes.PermUpsertTokenInfo, func(cc sdk.Context, who sdk.AccAddress) error {
+			gateN++
+			_, e := tms.UpsertTokenInfo(sdk.WrapSDKContext(cc), tokenstypes.NewMsgUpsertTokenInfo(who, fmt.Sprintf("gate%d", gateN), "adr20", sdk.NewDec(1), true, sdkmath.ZeroInt(), sdkmath.ZeroInt(), sdk.ZeroDec(), sdkmath.OneInt(), false, false,
+				"G", "G", "", 6, "", "", "", 0, sdkmath.ZeroInt(), "", false, "", ""))
+			return e
+		}},
+		{"basket.DisableBasketDeposits", govtypes.PermHandleBasketEmergency, func(cc sdk.Context, who sdk.AccAddress) error {
+			_, e := bms.DisableBasketDeposits(sdk.WrapSDKContext(cc), &baskettypes.MsgDisableBasketDeposits{Sender: who.String(), BasketId: gateBasket, Disabled: true})
+			return e
+		}},
+		{"staking.ClaimValidator", govtypes.PermClaimValidator, func(cc sdk.Context, who sdk.AccAddress) error {
+			gateN++
+			m, err := stakingtypes.NewMsgClaimValidator(fmt.Sprintf("gatemon%d", gateN), sdk.ValAddress(who), sdked25519.GenPrivKeyFromSecret([]byte(fmt.Sprintf("gate-%d", gateN))).PubKey())
+			if err != nil {
+				return err
+			}
+			_, e := sms.ClaimValidator(sdk.WrapSDKContext(cc), m)
+			return e
+		}},
 		{"SetNetworkProperties", govtypes.PermChangeTxFee, func(cc sdk.Context, who sdk.AccAddress) error {
 			_, e := ms.SetNetworkProperties(sdk.WrapSDKContext(cc), govtypes.NewMsgSetNetworkProperties(who, k.GetNetworkProperties(cc)))
 			return e
@@ -692,7 +730,7 @@ func runC07(r *Rec) {
 		}},
 	}
 	for _, g := range gates {
-		for _, mode := range []string{"without", "blacklisted", "with", "lost"} {
+		for _, mode := range []string{"without", "blacklisted", "role-blacklisted", "with", "lost"} {
 			gatePid = 0
 			cc, _ := base.CacheContext()
 			a, ok := k.GetNetworkActorByAddress(cc, w.addrs[2])
@@ -718,6 +756,11 @@ func runC07(r *Rec) {
 			switch mode {
 			case "with", "lost":
 				k.AddWhitelistPermission(cc, a, g.perm)
+			case "role-blacklisted":
+				// whitelisted personally, blacklisted through an assigned role: the blacklist wins
+				k.AddWhitelistPermission(cc, a, g.perm)
+				k.BlacklistRolePermission(cc, rb, g.perm)
+				k.AssignRoleToAccount(cc, w.addrs[2], rb)
 			case "blacklisted":
 				// whitelisted through a role, blacklisted personally
 				k.WhitelistRolePermission(cc, rb, g.perm)
@@ -736,7 +779,14 @@ func runC07(r *Rec) {
 					r.Fail("C07/gate/setup", "could not take the permission away for gate test "+g.name+": "+err.Error(), nil)
 				}
 			}
-			holds := govkeeper.CheckIfAllowedPermission(cc, k, w.addrs[2], g.perm)
+			// the reference is the RULE recomputed from the stored records, not the implementation's own check function
+			saved := c.ctx
+			c.ctx = cc
+			holds := c.ruleHolds(2, uint32(g.perm))
+			c.ctx = saved
+			if impl := govkeeper.CheckIfAllowedPermission(cc, k, w.addrs[2], g.perm); impl != holds {
+				r.Fail("C07/check/rule-mismatch", fmt.Sprintf("gate %s mode %s: CheckIfAllowedPermission=%v, rule over the stored records=%v", g.name, mode, impl, holds), nil)
+			}
 			err := func() (e error) {
 				defer func() {
 					if rec := recover(); rec != nil {
